@@ -20,6 +20,7 @@ LEVEL = "fault_enumeration"
 DAY_MS = 86400000
 ERRNOS = {"EACCES": 13, "ENOSPC": 28, "EIO": 5, "EEXIST": 17, "EXDEV": 18, "EINVAL": 22}
 O_CREAT = 0o100
+O_TMPFILE = 0o20200000
 REC_RE = re.compile(rb"R(\d+):")
 
 
@@ -219,7 +220,7 @@ def enumerate_faults(events):
     for k, e in enumerate(events, 1):
         if e["k"] == "write":
             out.append((k, 2, None))                 # half the buffer, then crash
-        fail = e["k"] in ("rename", "link", "unlink") or (e["k"] == "open" and (e["n"] & O_CREAT))
+        fail = e["k"] in ("rename", "link", "unlink") or (e["k"] == "open" and ((e["n"] & O_CREAT) or (e["n"] & O_TMPFILE) == O_TMPFILE))
         if fail:
             for name, no in ERRNOS.items():
                 if name == "EINVAL" and e["k"] != "rename":
